@@ -63,7 +63,8 @@ type Console struct {
 	Respond func(c *Console, written []byte) []byte
 	// Silent disables all automatic replies.
 	Silent                           bool
-	sawOsc66                         bool
+	sawOsc66    bool
+	answeredCPR bool
 	pend                             []byte // partial escape sequence carried between writes (not needed: vaxis writes whole sequences)
 	RawCalls, ResetCalls, CloseCalls int
 }
@@ -151,11 +152,15 @@ func (c *Console) script(p []byte) []byte {
 		case strings.HasPrefix(rest, "\x1b[H"):
 			c.sawOsc66 = false
 		case strings.HasPrefix(rest, "\x1b[6n"):
+			// NB: vaxis writes this DSR directly to the console while the OSC 66 probe is still
+			// in its write buffer, so the query arrives *before* the probe. A terminal on which
+			// Vaxis detects explicit-width support is therefore one whose cursor happens to be
+			// in column 2 at that moment; ExplicitWidth reproduces that.
 			col := 1
-			if c.sawOsc66 && c.Caps.ExplicitWidth {
+			if c.Caps.ExplicitWidth && !c.answeredCPR {
 				col = 2
 			}
-			c.sawOsc66 = false
+			c.answeredCPR = true
 			fmt.Fprintf(&out, "\x1b[1;%dR", col)
 		case strings.HasPrefix(rest, "\x1b[c"):
 			if !c.Caps.NoDA1 {
